@@ -4,7 +4,7 @@ OUTSIDE = ''
 _SRC = ['dispenso/graph.cpp', 'dispenso/graph_executor.cpp', 'dispenso/pool_allocator.cpp']
 INSTANCES = [
     {'name': 'probe2', 'src': 'probe2.cpp', 'engine': 'cbmc', 'repo_sources': _SRC,
-     'models': ['aligned_alloc'], 'intercept': {'_ZN8dispenso14PoolAllocatorTILb0EE5allocEv': 'vf_c30_pool_alloc'}, 'rt_extra': ['harness/C30/pool_model.c'], 'cflags': ['-DDISPENSO_NO_SMALL_BUFFER_ALLOCATOR'],
+     'models': ['aligned_alloc'], 'ptrdiff': True, 'intercept': {'_ZN8dispenso14PoolAllocatorTILb0EE5allocEv': 'vf_c30_pool_alloc'}, 'rt_extra': ['harness/C30/pool_model.c'], 'cflags': ['-DDISPENSO_NO_SMALL_BUFFER_ALLOCATOR'],
      'unwind': 4, 'nthreads': 1, 'timeout': 600, 'tiers': ['quick'],
      'bounds': '2 nodes'},
 ]
